@@ -31,6 +31,12 @@ class InfraError(Exception):
     pass
 
 
+class ImplCrash(InfraError):
+    """an implementation runner died with a Python traceback that ends inside the library under test: on the unchanged
+    tree this never happens (the checks are green), so it is a behaviour change of the library, reported as a violation
+    without a minimised input (the replay file holds the traceback)"""
+
+
 class Ctx:
     def __init__(self, pid, tier, seed):
         self.id = pid
@@ -153,7 +159,11 @@ def run_impl(script, payload, build="compiled", hashseed=0, timeout=600, impl=No
     r = subprocess.run([PY, sp], input=json.dumps(payload), capture_output=True, text=True,
                        env=env, timeout=timeout, cwd=tempfile.gettempdir())
     if r.returncode != 0:
-        raise InfraError(f"impl runner {script} failed rc={r.returncode}:\n{r.stderr[-4000:]}")
+        tb = r.stderr[-4000:]
+        frames = re.findall(r'File "([^"]+)", line \d+', tb)
+        if r.returncode == 1 and "Traceback (most recent call last)" in tb and frames and os.sep + "xdeps" + os.sep in frames[-1]:
+            raise ImplCrash(f"impl runner {script} ({build}, hash seed {hashseed}): the library raised outside any handled place:\n{tb}")
+        raise InfraError(f"impl runner {script} failed rc={r.returncode}:\n{tb}")
     try:
         return json.loads(r.stdout)
     except Exception as e:
